@@ -132,3 +132,12 @@ Fixpoint while_probe (fuel i : nat) (test : nat -> bool) : nat :=
   | 0 => i
   | S f => if test i then while_probe f (S i) test else i
   end.
+
+(* ---- None-skipping reductions (vector.py, table.py: GenReduce.v) --------------------------------
+   [v for v in cells if v is not None] *)
+Fixpoint live_values {A} (l : list (option A)) : list A :=
+  match l with
+  | [] => []
+  | None :: t => live_values t
+  | Some v :: t => v :: live_values t
+  end.
